@@ -1,17 +1,22 @@
 #!/bin/sh
 # usage: seedtest.sh <PROPERTY> <patch.diff> [demo.py]
-# Applies a seeded change to a scratch worktree of /repo's HEAD (never to /repo itself), points the whole check
-# pipeline at it with VERIF_REPO, prints the verdict lines, and removes the worktree.  The next ordinary ./check
-# regenerates build/gen from /repo again.
+# Applies a seeded change to a scratch worktree of /repo's HEAD (never to /repo itself) and runs the check of a scratch
+# COPY of /verif (sources + compiled files, so only what the change touches is rebuilt) pointed at that worktree with
+# the development-only variable VERIF_REPO.  Neither /repo, nor /verif/build, /verif/evidence or /verif/replay are
+# touched; verdict lines are printed, replay files stay in the copy ($SEED_VERIF/replay).
 P=$1; PATCH=$2; DEMO=$3
 WT=${SEED_WT:-/tmp/seedwt}
+SV=${SEED_VERIF:-/tmp/vseed}
 git -C /repo worktree remove --force "$WT" >/dev/null 2>&1
 git -C /repo worktree add -q --detach "$WT" HEAD || exit 2
 git -C /repo diff --quiet || git -C /repo diff | git -C "$WT" apply   # carry uncommitted /repo state, if any
 git -C "$WT" apply "$PATCH" || { echo "patch does not apply"; git -C /repo worktree remove --force "$WT"; exit 2; }
 if [ -n "$DEMO" ]; then PYTHONPATH=$WT /venv/bin/python "$DEMO" >/tmp/seed_demo.out 2>&1; echo "demo on patched tree: exit $?"; fi
-cd /verif && VERIF_REPO=$WT ./check "$P" --tier quick > /tmp/seed_check_$P.out 2>&1; RC=$?
-grep -E "^VIOLATION|^KNOWN|quick:" /tmp/seed_check_$P.out | cut -c1-220
+if [ -z "$SEED_KEEP" ] || [ ! -d "$SV" ]; then
+  mkdir -p "$SV" && rsync -a --delete --exclude .git --exclude replay /verif/ "$SV"/
+fi
+cd "$SV" && VERIF_REPO=$WT ./check "$P" --tier quick > /tmp/seed_check_$P.out 2>&1; RC=$?
+grep -E "^VIOLATION|^KNOWN|quick:|Traceback|Error" /tmp/seed_check_$P.out | cut -c1-220
 echo "check exit $RC"
 git -C /repo worktree remove --force "$WT"
 exit 0
